@@ -82,7 +82,9 @@ def dev_trace(tier, seed, rest):
     if rest:
         defs = [d for d in defs if any(r in d["id"] for r in rest)]
     r = trace_run("devtrace", defs, tier, seed, ALL_CFGS)
-    print(json.dumps({k: r[k] for k in ("defs", "explored", "requests", "runs", "distinct_traces", "accepted", "events", "n_findings", "wall")}))
+    print(json.dumps({k: r[k] for k in ("defs", "explored", "requests", "runs", "distinct_traces", "accepted", "events", "n_findings", "graphtrace_accepted", "n_drift", "wall")}))
+    for dr in r["drift"][:8]:
+        print("DRIFT", dr)
     seen = set()
     for f in r["findings"]:
         k = (f["def"], f["kind"])
@@ -105,6 +107,9 @@ def main(argv):
         if prop == "dev-trace":
             dev_trace(tier, seed, rest[1:])
             return
+        if prop == "selftest":
+            from selftest import selftest
+            sys.exit(0 if selftest(tier, seed) else 1)
         if prop == "dev-lex":
             dev_lex(tier, seed, rest[1:])
             return
